@@ -2,3 +2,4 @@ import Spec.Pairing
 import Spec.AllotSpec
 import Spec.Draw
 import Spec.Distribute
+import Spec.Statement
